@@ -2,6 +2,10 @@ package main
 
 import (
 	"fmt"
+	"runtime"
+	"runtime/pprof"
+	"sync"
+	"sync/atomic"
 	"os"
 	"strings"
 	"time"
@@ -37,14 +41,16 @@ type jcase struct {
 	KfKey string   `json:"kf_key,omitempty"`
 }
 
-type runner struct {
-	c       *kit.Ctx
-	ks      consts
-	skipped int
+type result struct {
+	skip   bool
+	term   string
+	jc     jcase
+	key    string
+	counts []string
+	fails  []string
 }
 
-// consumed reports whether every fault of the injected plan was reached by the reconcile
-// (the realised plan differs from the all-ok plan at that site because the call was made).
+// consumed reports whether every fault of the injected plan was reached by the reconcile.
 func consumed(inj plan, effs []string, w *world) bool {
 	for _, f := range inj.faults() {
 		site := strings.SplitN(f, "=", 2)[0]
@@ -78,9 +84,9 @@ func consumed(inj plan, effs []string, w *world) bool {
 	return true
 }
 
-func (r *runner) run(h hist) {
-	c := r.c
-	w := newWorld(h.K, r.ks)
+func runHist(sl *slot, h hist, ks consts) (out result) {
+	w := newWorld(sl, h.K, ks)
+	count := func(s string) { out.counts = append(out.counts, s) }
 	var pairs, jops, jobs []string
 	stale, faults, recs := 0, 0, 0
 	for _, o := range h.Ops {
@@ -95,8 +101,7 @@ func (r *runner) run(h hist) {
 			recs++
 			if !o.Plan.isOK() {
 				if h.Need && !consumed(*o.Plan, effs, w) {
-					r.skipped++
-					return
+					return result{skip: true}
 				}
 				faults++
 			}
@@ -106,39 +111,79 @@ func (r *runner) run(h hist) {
 		jops = append(jops, gop)
 		jobs = append(jobs, strings.Join(effs, ",")+" -> "+res)
 		// input distribution: which branches of the modelled code the implementation took
-		c.Count("op:" + o.Kind)
+		count("op:" + o.Kind)
 		if o.Kind == "Rec" {
 			for _, e := range effs {
-				c.Count("call:" + e)
+				count("call:" + e)
 			}
-			c.Count("result:" + strings.Trim(strings.SplitN(res, " ", 2)[0], "()"))
+			count("result:" + strings.Trim(strings.SplitN(res, " ", 2)[0], "()"))
 			if nc := w.claim(); nc != nil {
 				rr, _ := w.condR(nc)
-				c.Count("cond:" + w.condL(nc) + "/" + rr + "/" + w.condI(nc))
+				count("cond:" + w.condL(nc) + "/" + rr + "/" + w.condI(nc))
 			} else {
-				c.Count("cond:claim-gone")
+				count("cond:claim-gone")
 			}
 			for _, f := range o.Plan.faults() {
-				c.Count("fault:" + f)
+				count("fault:" + f)
 			}
 		}
 	}
-	c.Count("history:" + h.Tag)
-	c.Count(fmt.Sprintf("history-stale-reconciles:%d", min(stale, 3)))
-	c.Count(fmt.Sprintf("history-faulty-reconciles:%d", min(faults, 3)))
-	c.Count(fmt.Sprintf("instances-created:%d", min(w.prov.made, 3)))
-	key := ""
+	count("history:" + h.Tag)
+	count(fmt.Sprintf("history-stale-reconciles:%d", min(stale, 3)))
+	count(fmt.Sprintf("history-faulty-reconciles:%d", min(faults, 3)))
+	count(fmt.Sprintf("instances-created:%d", min(w.prov.made, 3)))
 	if recs > 0 {
-		key = fmt.Sprint(h.K) + strings.Join(jops, ";")
+		out.key = fmt.Sprint(h.K) + strings.Join(jops, ";")
 	}
-	jc := jcase{Cfg: h.K, Tag: h.Tag, Ops: jops, Obs: jobs}
-	id := c.AddCase(fmt.Sprintf("Case %s %s", h.K.gallina(r.ks), kit.GList(pairs)), jc, key)
+	out.jc = jcase{Cfg: h.K, Tag: h.Tag, Ops: jops, Obs: jobs}
+	out.term = fmt.Sprintf("Case %s %s", h.K.gallina(ks), kit.GList(pairs))
 	if w.createWithoutFinalizer {
-		c.Fail(id, "cloudProvider.Create was called while the NodeClaim in the API had no termination finalizer", "", jc)
+		out.fails = append(out.fails, "cloudProvider.Create was called while the NodeClaim in the API had no termination finalizer")
 	}
 	for _, u := range w.unexpected {
-		c.Fail(id, "harness: observation outside the modelled vocabulary: "+u, "", jc)
+		out.fails = append(out.fails, "harness: observation outside the modelled vocabulary: "+u)
 	}
+	return out
+}
+
+// runAll runs the histories on parallel workers (one API client each) and records them in order.
+func runAll(c *kit.Ctx, ks consts, hs []hist) (skipped int) {
+	res := make([]result, len(hs))
+	workers := runtime.NumCPU()
+	if workers > 16 {
+		workers = 16
+	}
+	var wg sync.WaitGroup
+	next := int64(-1)
+	for i := 0; i < workers; i++ {
+		wg.Add(1)
+		go func() {
+			defer wg.Done()
+			sl := newSlot()
+			for {
+				j := int(atomic.AddInt64(&next, 1))
+				if j >= len(hs) {
+					return
+				}
+				res[j] = runHist(sl, hs[j], ks)
+			}
+		}()
+	}
+	wg.Wait()
+	for _, r := range res {
+		if r.skip {
+			skipped++
+			continue
+		}
+		id := c.AddCase(r.term, r.jc, r.key)
+		for _, k := range r.counts {
+			c.Count(k)
+		}
+		for _, f := range r.fails {
+			c.Fail(id, f, "", r.jc)
+		}
+	}
+	return skipped
 }
 
 // ---------------------------------------------------------------- generators
@@ -372,7 +417,7 @@ func randomHist(r *kit.Rand, ks consts, maxFaults int) hist {
 }
 
 func measureTTL() int64 {
-	w := newWorld(cfgT{Managed: true}, consts{TTL: 1 << 40, LT: 1, RT: 1})
+	w := newWorld(newSlot(), cfgT{Managed: true}, consts{TTL: 1 << 40, LT: 1, RT: 1})
 	w.apply(rec(plan{Status: 3}))
 	exp, ok := w.ctrl.VerifLaunchCacheExpiration(w.uid)
 	if !ok {
@@ -383,9 +428,15 @@ func measureTTL() int64 {
 
 func main() {
 	c := kit.Parse("C14", os.Args[1:])
+	if pf := os.Getenv("VERIF_C14_PROF"); pf != "" {
+		f, _ := os.Create(pf)
+		_ = pprof.StartCPUProfile(f)
+		defer pprof.StopCPUProfile()
+		go func() { time.Sleep(15 * time.Second); pprof.StopCPUProfile(); os.Exit(0) }()
+	}
 	ks := readConsts()
 	ks.TTL = measureTTL()
-	r := &runner{c: c, ks: ks}
+	var hs []hist
 	nRandom, maxFaults, permCfgs := 1100, 1, 2
 	if c.Thorough() {
 		nRandom, maxFaults, permCfgs = 12000, 2, 5
@@ -393,24 +444,24 @@ func main() {
 	// 1. scripts, fault-free, for every configuration
 	for _, k := range append(cfgs(), cfgT{}) {
 		for _, s := range sortedScripts(scripts(k, ks)) {
-			r.run(hist{K: k, Ops: s, Tag: "script"})
+			hs = append(hs, hist{K: k, Ops: s, Tag: "script"})
 		}
 	}
 	// 2. a failure injected at each individual API write / provider call of each reconcile of each script,
 	//    with and without the informer catching up afterwards
-	ncfg := 3
+	ncfg := 2
 	if c.Thorough() {
 		ncfg = len(cfgs())
 	}
 	for _, k := range cfgs()[:ncfg] {
-		for _, s := range sortedScripts(scripts(k, ks)) {
+		for _, s := range faultScripts(k, ks, c.Thorough()) {
 			for i := 0; i < countRecs(s); i++ {
 				for _, f := range singleFaults() {
 					for _, stale := range []bool{false, true} {
 						if !c.Thorough() && stale && (f.Fin|f.DelLaunch|f.NPatchReg|f.PoolReg|f.NPatchInit|f.PoolLive1|f.DelLive1|f.PoolLive2|f.DelLive2|f.Patch|f.Status|f.Term|f.Unfin) == wNotFound {
 							continue
 						}
-						r.run(hist{K: k, Ops: withFaultAt(s, i, f, stale), Tag: "script+fault", Need: true})
+						hs = append(hs, hist{K: k, Ops: withFaultAt(s, i, f, stale), Tag: "script+fault", Need: true})
 					}
 				}
 			}
@@ -429,16 +480,17 @@ func main() {
 					}
 				}
 				ops = append(ops, op("Sync"), rec(okPlan), op("NStartupOff"), rec(okPlan), op("Sync"), rec(okPlan))
-				r.run(hist{K: k, Ops: ops, Tag: "node-event-orders"})
+				hs = append(hs, hist{K: k, Ops: ops, Tag: "node-event-orders"})
 			}
 		}
 	}
 	// 4. random histories
 	for i := 0; i < nRandom; i++ {
-		r.run(randomHist(c.Rand.Fork(), ks, maxFaults))
+		hs = append(hs, randomHist(c.Rand.Fork(), ks, maxFaults))
 	}
+	skipped := runAll(c, ks, hs)
 	c.Meta.Rule = fmt.Sprintf("histories of the real lifecycle.Controller.Reconcile: every scripted path (happy, both liveness timeouts at -1/0/+1 s, capacity errors, duplicate node, termination, lost status write with retry/restart/cache expiry at -1/0/+1 s) x a fault at each individual API write / provider call of each reconcile (kept only when the call was reached; %d unreachable combinations skipped) x informer fresh/stale; all 24 orders of node appearance/readiness/taint removal/resource report; %d random histories with up to %d faulty reconciles. non-trivial = at least one Reconcile call was made; distinct by configuration and op list",
-		r.skipped, nRandom, maxFaults)
+		skipped, nRandom, maxFaults)
 	c.Meta.Exhaustive = false
 	c.Meta.Corr = []string{
 		"lifecycle.Controller.Reconcile (finalizer patch, sub-reconciler loop, Patch + Status().Patch, result.Min, IgnoreNotFound) = C14.Model.reconcile/finish",
@@ -458,6 +510,19 @@ func main() {
 		},
 	}
 	c.Finish("From KV Require Import C14.Model C14.Spec C14.Check.", "case", "check_all", 700)
+}
+
+// the scripts that get a fault at each call of each reconcile
+func faultScripts(k cfgT, ks consts, thorough bool) [][]opT {
+	m := scripts(k, ks)
+	if thorough {
+		return sortedScripts(m)
+	}
+	var out [][]opT
+	for _, n := range []string{"happy", "launch-timeout@+0", "registration-timeout@+0", "both-timeouts", "capacity", "terminate", "duplicate-node"} {
+		out = append(out, m[n])
+	}
+	return out
 }
 
 func sortedScripts(m map[string][]opT) [][]opT {
